@@ -41,6 +41,14 @@ CHECKS = {
    technique="bounded-exhaustive differential execution: original predictor vs. deserialise(serialise(predictor)) on all texts",
    text="Every model of the (sub-sampled, step stated in evidence) C01 and C06 families plus zero / trailing-zero weight vectors, with and without tag prediction, is serialised, followed by one of four tails, deserialised, and both predictors are run on every text over a 4-letter alphabet up to length 4/5 with score storing off and on; the rest slice must equal the tail and the full public observation (scores, boundaries, tags, tag candidates, tokens, written forms) must be identical.",
    note="Scope is self-produced bytes (the API is unsafe for foreign bytes). Bytes are never compared across runs (hash-map order). daachorse (de)serialisation trusted."),
+ "C15": dict(level="exploration", section="3/C15",
+   technique="bounded-exhaustive enumeration of sentences x filters vs. rule-level reference (grapheme clusters from unicode-segmentation over the whole string)",
+   text="The six character-type filters, the line-break filter and the grapheme filter on every text up to 4/5 characters over a 13-letter alphabet (digit, Roman, kana, kanji, '.', CR, LF, ZWJ, pictograph, regional indicator, combining mark, skin-tone modifier) x every {N,W,U} label vector x three tag fillings; the pattern tagger with all 256 rule tables over surfaces {a, ab} (tag vectors of length 0-3 with absent entries) x texts x label vectors x tag counts 0-3 x three tag fillings. Text, types, tags (resp. boundaries) must be untouched, exactly the rule's boundaries/tags must change, a second application must change nothing, nothing may panic.",
+   note="Trusted: unicode-segmentation's extended grapheme clusters on the whole string. Out-of-bounds reads that do not crash are C18's business (same space under an instrumented build)."),
+ "C19": dict(level="exploration", section="3/C19",
+   technique="bounded-exhaustive API differential (replace_dictionary vs reference score deltas) + exhaustive hostile-word sweep through the real manipulate_model binary",
+   text="API: sub-sampled C01 models x every replacement dictionary of <=2 words x all texts: the mirror-decoded model must differ only in the dictionary and every boundary score must move by exactly ref(new) - ref(old); WordWeightRecord::new is probed with every weight count 0..7 on six single- and multi-byte words. CLI: the real manipulate_model is run on every word up to 2/3 characters over {a , \" space LF CR hiragana #} with extreme weights (16- and 32-bit limits) and hostile comments, each alone and all together: --dump-dict, --replace-dict with the untouched dump, byte comparison of the zstd-decoded models, and a dump edited to a wrong weight count must be rejected with no output model.",
+   note="Trusted: csv and zstd crates, the mirror. Process spawns use files under /verif/target/scratch."),
 }
 
 PENDING_REASON = "check not built yet in this round (planned in DESIGN.md section 3); no claim is made"
